@@ -311,7 +311,7 @@ func zxC08Having() {
 		}
 	}
 	vrtAssert(len(got) == len(want), "HAVING returns exactly the rows that satisfy it: "+c.with)
-	vrtAssert(zxSameRows(want, got, true), "HAVING returns the satisfying rows unchanged and in order: "+c.with)
+	vrtAssert(zxSameRows(want, got, false), "HAVING returns the satisfying rows unchanged: "+c.with) // no ORDER BY: the order is not part of the result
 	vrtReach("C08.H")
 }
 
